@@ -47,8 +47,15 @@ def failing_read(tmp):
         return True
 
 
+# the same parameters as a caller may spell them through the library interface: lower / mixed-case prefix, bytes, NumPy-typed k
+KS_SPELLINGS = [KS, KmerSpec(5, 'at'), KmerSpec(5, b'aT'), KmerSpec(np.int64(5), 'At')]
+
+
 def real_sig(path, k=5):
-    sig = calc_file_signature(KS, SequenceFile(path, 'fasta', 'auto'))
+    ks = KS_SPELLINGS[sum(os.path.basename(path).encode()) % len(KS_SPELLINGS)]
+    sig = calc_file_signature(ks, SequenceFile(path, 'fasta', 'auto'))
+    if ks != KS or ks.prefix != KS.prefix or int(ks.k) != 5:
+        raise AssertionError('equal parameters in another spelling are not equal KmerSpec objects')
     return [digits4(int(v), k) for v in sig], f'{sig.dtype.kind}{sig.dtype.itemsize}'
 
 
